@@ -7,7 +7,7 @@
 //! their delay slot.
 
 use crate::fw::*;
-use crate::liftexec::{run_block, IlState, LiftEnd};
+use crate::liftexec::{run_block, run_block_until_branch, IlState, LiftEnd};
 use crate::mipsref::{self, MipsCpu, MipsOutcome};
 use crate::ppcref::{self, PpcCpu, PpcOutcome};
 use crate::refeval::Bv;
@@ -335,6 +335,244 @@ impl C02 {
     }
 }
 
+// ------------------------------------------------------------------ MIPS: multi-instruction blocks
+
+/// why the reference stopped before the end of the covered words
+enum BlockStop {
+    Outcome(MipsOutcome),
+    BranchWithoutSlot(usize),
+}
+
+/// Execute words[0..n_cov] one architectural instruction at a time (a branch together with its delay slot) the way a
+/// lifted block is executed: stop after the first transfer of control (taken or not-taken non-linking branch, taken call),
+/// continue behind a conditional call that is not taken. Returns the next pc.
+fn mips_ref_block(cpu: &mut MipsCpu, pc0: u32, words: &[u32], n_cov: usize) -> Result<u32, BlockStop> {
+    let mut i = 0usize;
+    loop {
+        let a = pc0.wrapping_add(4 * i as u32);
+        if i >= n_cov {
+            return Ok(a);
+        }
+        let w = words[i];
+        if mipsref::has_delay_slot(w) {
+            if i + 1 >= n_cov {
+                return Err(BlockStop::BranchWithoutSlot(i));
+            }
+            // a conditional call that is not taken falls through into the rest of the block (decided on the
+            // register value before the step: its target may equal the fall-through address)
+            let rs_before = cpu.gpr[((w >> 21) & 31) as usize] as i32;
+            let not_taken_call = match mipsref::mnemonic(w) {
+                Some("bgezal") | Some("bal") => rs_before < 0,
+                Some("bltzal") => rs_before >= 0,
+                _ => false,
+            };
+            match mipsref::step(cpu, a, w, Some(words[i + 1])) {
+                MipsOutcome::Next { pc } => {
+                    if not_taken_call {
+                        i += 2;
+                        continue;
+                    }
+                    return Ok(pc);
+                }
+                o => return Err(BlockStop::Outcome(o)),
+            }
+        } else {
+            match mipsref::step(cpu, a, w, None) {
+                MipsOutcome::Next { pc } if pc == a.wrapping_add(4) => i += 1,
+                MipsOutcome::Next { .. } => return Err(BlockStop::Outcome(MipsOutcome::Unmodelled)),
+                o => return Err(BlockStop::Outcome(o)),
+            }
+        }
+    }
+}
+
+impl C02 {
+    /// A branch (with or without the bytes of its delay slot) behind `k` straight-line instructions, handed to
+    /// translate_block as one byte string of a chosen length (in particular exactly 64 bytes - the window size function
+    /// lifting uses - with the branch in its last or second-to-last word). Whatever prefix of the words the result
+    /// says it covers (`length()`), running its IL must equal executing that prefix; a covered branch must have
+    /// its delay slot covered too.
+    fn mips_block_case(&self, ctx: &mut Ctx, rng: &mut Rng, big: bool) {
+        let arch = if big { "mips" } else { "mipsel" };
+        let k = *rng.pick(&[0usize, 1, 2, 3, 5, 13, 14, 14, 15, 15, 16, 17]);
+        let mut words: Vec<u32> = Vec::new();
+        while words.len() < k {
+            let w = mips_plain(rng);
+            if mipsref::mnemonic(w).is_some() && !mipsref::has_delay_slot(w) {
+                words.push(w);
+            }
+        }
+        let br = mips_branch(rng);
+        let brmn = match mipsref::mnemonic(br) {
+            Some(m) if mipsref::has_delay_slot(br) => m,
+            _ => return,
+        };
+        words.push(br);
+        let mut slot = mips_plain(rng);
+        if mipsref::mnemonic(slot).is_none() || mipsref::has_delay_slot(slot) {
+            slot = 0;
+        }
+        if (brmn == "jr" || brmn == "jalr") && (((slot >> 16) & 31) == ((br >> 21) & 31) || ((slot >> 11) & 31) == ((br >> 21) & 31)) {
+            // the slot may write the jump register: that constellation is owned by the branch+slot pair cases (C02-K1)
+            slot = 0;
+        }
+        words.push(slot);
+        for _ in 0..rng.below(3) {
+            let w = mips_plain(rng);
+            if mipsref::mnemonic(w).is_some() && !mipsref::has_delay_slot(w) {
+                words.push(w);
+            }
+        }
+        // how many bytes are handed over: everything, cut behind the branch (no slot bytes), cut behind the slot, or 64
+        let nbytes = match rng.below(5) {
+            0 => 4 * (k + 1),
+            1 => 4 * (k + 2),
+            2 => 64.min(4 * words.len()),
+            _ => 4 * words.len(),
+        };
+        let shape = format!("k{}:{}", if k >= 13 { k.to_string() } else { "small".to_string() }, if nbytes == 4 * (k + 1) { "cut_before_slot" } else if nbytes == 64 { "window64" } else { "whole" });
+        let pc: u32 = 0x0040_0000 + 4 * rng.below(0x1000) as u32;
+        let mut cpu0 = MipsCpu::new(big);
+        for i in 1..32 {
+            cpu0.gpr[i] = reg_value(rng);
+        }
+        cpu0.hi = rng.corner64(32) as u32;
+        cpu0.lo = rng.corner64(32) as u32;
+        let mut bytes = Vec::new();
+        for w in &words {
+            bytes.extend_from_slice(&if big { w.to_be_bytes() } else { w.to_le_bytes() });
+        }
+        bytes.truncate(nbytes);
+        let input = |cpu: &MipsCpu| {
+            let mut j = mips_json(cpu, pc, &words);
+            j["bytes_given"] = json!(nbytes);
+            j
+        };
+        ctx.trace(|| format!("mips block {}", input(&cpu0)));
+        let lifted = guard(|| if big { Mips::new().translate_block(&bytes, pc as u64, &Options::default()) } else { Mipsel::new().translate_block(&bytes, pc as u64, &Options::default()) });
+        let btr = match lifted {
+            Err(p) => {
+                ctx.panic_violation(&format!("{}:lift_block:{}", arch, brmn), &p, input(&cpu0));
+                return;
+            }
+            Ok(Err(_)) => {
+                ctx.count("mips.block.falcon_rejected");
+                return;
+            }
+            Ok(Ok(b)) => b,
+        };
+        ctx.eval();
+        // which words the block covers: taken from the instruction addresses it reports (falcon reports the transfer part
+        // of a branch at address+1; `length()` does not count the delay slot of a block-ending branch and is not used)
+        let mut addrs: Vec<u64> = btr.instructions().iter().map(|(a, _)| *a & !3).collect();
+        addrs.sort();
+        addrs.dedup();
+        let n_cov = addrs.len();
+        if addrs.iter().enumerate().any(|(i, a)| *a != pc as u64 + 4 * i as u64) || 4 * n_cov > nbytes {
+            ctx.violation(&format!("{}:block:{}:{}:instructions_not_a_prefix_of_the_bytes", arch, brmn, shape), json!({"input": input(&cpu0), "addresses": addrs.iter().map(|a| format!("0x{:x}", a)).collect::<Vec<_>>()}));
+            return;
+        }
+        // memory discovery on the reference
+        for _ in 0..8 {
+            let mut probe = cpu0.clone();
+            match mips_ref_block(&mut probe, pc, &words, n_cov) {
+                Err(BlockStop::Outcome(MipsOutcome::MemFault(a))) => {
+                    // whole aligned words (lwl/lwr/swl/swr may touch all of the word containing the address)
+                    for j in 0..48u32 {
+                        cpu0.mem.entry((a & !3).wrapping_sub(16).wrapping_add(j)).or_insert(rng.u64() as u8);
+                    }
+                }
+                _ => break,
+            }
+        }
+        if cpu0.mem.keys().any(|a| *a >= 0xffff_ff00) {
+            ctx.count("mips.access_wraps_address_space(skipped)");
+            return;
+        }
+        let mut cpu = cpu0.clone();
+        let ref_pc = match mips_ref_block(&mut cpu, pc, &words, n_cov) {
+            Ok(p) => p,
+            Err(BlockStop::BranchWithoutSlot(i)) => {
+                ctx.violation(
+                    &format!("{}:block:{}:{}:branch_covered_without_its_delay_slot", arch, brmn, shape),
+                    json!({"input": input(&cpu0), "length": btr.length(), "branch_index": i, "lifted_instruction_addresses": btr.instructions().iter().map(|(a, _)| format!("0x{:x}", a)).collect::<Vec<_>>()}),
+                );
+                return;
+            }
+            Err(BlockStop::Outcome(_)) => {
+                ctx.count("mips.block.ref_not_defined(skipped)");
+                return;
+            }
+        };
+        let mut st = IlState::new(big);
+        for i in 0..32 {
+            st.set(MIPS_REGS[i], Bv::from_u64(cpu0.gpr[i] as u64, 32));
+        }
+        st.set("$hi", Bv::from_u64(cpu0.hi as u64, 32));
+        st.set("$lo", Bv::from_u64(cpu0.lo as u64, 32));
+        st.mem = cpu0.mem.iter().map(|(a, b)| (*a as u64, *b)).collect();
+        let end = run_block_until_branch(&btr, &mut st);
+        let il_pc = match end {
+            LiftEnd::Next(p) => p,
+            other => {
+                let kind = match &other {
+                    LiftEnd::Intrinsic(_) => "intrinsic".to_string(),
+                    LiftEnd::Fault(f) => f.kind().to_string(),
+                    o => format!("{:?}", o).to_lowercase(),
+                };
+                ctx.violation(&format!("{}:block:{}:{}:il_{}", arch, brmn, shape, kind), json!({"input": input(&cpu0), "covered_words": n_cov, "il_end": format!("{:?}", other)}));
+                return;
+            }
+        };
+        let mut diffs: Vec<&str> = Vec::new();
+        let mut detail: Vec<String> = Vec::new();
+        for i in 1..32 {
+            let got = st.get_u64(MIPS_REGS[i]).map(|v| v as u32);
+            if got != Some(cpu.gpr[i]) {
+                diffs.push(if i == 31 { "ra" } else { "gpr" });
+                detail.push(format!("{}: expected 0x{:x} got {:?}", MIPS_REGS[i], cpu.gpr[i], got.map(|g| format!("0x{:x}", g))));
+            }
+        }
+        let mul_seen = words[..n_cov].iter().any(|w| mipsref::mnemonic(*w) == Some("mul"));
+        if !mul_seen && (st.get_u64("$hi").map(|v| v as u32) != Some(cpu.hi) || st.get_u64("$lo").map(|v| v as u32) != Some(cpu.lo)) {
+            diffs.push("hilo");
+        }
+        let refmem: std::collections::BTreeMap<u64, u8> = cpu.mem.iter().map(|(a, b)| (*a as u64, *b)).collect();
+        if st.mem != refmem {
+            diffs.push("mem");
+            let d: Vec<String> = refmem.iter().filter(|(a, b)| st.mem.get(*a) != Some(*b)).take(6).map(|(a, b)| format!("[{:x}] expected {:02x} got {:?}", a, b, st.mem.get(a))).collect();
+            let extra: Vec<String> = st.mem.keys().filter(|a| !refmem.contains_key(*a)).take(6).map(|a| format!("{:x}", a)).collect();
+            detail.push(format!("memory: {:?}; written only by the IL: {:?}", d, extra));
+        }
+        if il_pc != ref_pc as u64 {
+            diffs.push("pc");
+            detail.push(format!("next pc: expected 0x{:x} got 0x{:x}", ref_pc, il_pc));
+        }
+        diffs.sort();
+        diffs.dedup();
+        if !diffs.is_empty() {
+            // a filler instruction that is wrong on its own is reported by the single-instruction cases
+            for (i, w) in words[..n_cov].iter().enumerate() {
+                if i == k || i == k + 1 {
+                    continue;
+                }
+                let before = ctx.n_violations();
+                let mut r2 = rng.clone();
+                self.mips_case(ctx, &mut r2, big, *w, None, None, "slot_probe");
+                if ctx.n_violations() != before {
+                    ctx.count("mips.block_case_attributed_to_a_filler_instruction");
+                    return;
+                }
+            }
+            ctx.violation(&format!("{}:block:{}:{}:diff={}", arch, brmn, shape, diffs.join("+")), json!({"input": input(&cpu0), "covered_words": n_cov, "differences": detail}));
+            return;
+        }
+        ctx.class(&format!("{}/block/{}/{}/cov{}", arch, brmn, shape, if n_cov > k { "branch" } else { "prefix" }));
+        ctx.count("mips.block.compared");
+        ctx.count(if n_cov > k { "mips.block.branch_covered" } else { "mips.block.ended_before_branch" });
+    }
+}
+
 // ------------------------------------------------------------------ PPC
 
 fn ppc_word(rng: &mut Rng) -> u32 {
@@ -618,7 +856,11 @@ impl Check for C02 {
             }
             _ => {
                 for _ in 0..12 {
-                    match rng.below(5) {
+                    match rng.below(6) {
+                        5 => {
+                            let big = rng.bool();
+                            self.mips_block_case(ctx, rng, big);
+                        }
                         0 | 1 => {
                             let big = rng.bool();
                             let w = mips_plain(rng);
